@@ -4,6 +4,7 @@ import (
 	"fmt"
 	"go/constant"
 	"go/token"
+	"go/types"
 	"strings"
 
 	"golang.org/x/tools/go/ssa"
@@ -23,6 +24,7 @@ func init() {
 			"R3b in the event-log lookup at most one locator is resolved per call (the first match in precedence order decides; a failed local locator does not fall through to the network one). R4 confinement: in extract/eventlog every os file access takes a path produced by securejoin.SecureJoin rooted at the reader's Root (error checked). " +
 			"R4b in the call closure of the event-log locator local evidence is read whole (no io.LimitReader / LimitedReader / CopyN, which truncate silently). " +
 			"R7 what package extract hands to the binary attestation parsers has no byte-normalising step (Trim*, To*, Replace*, Fields) in its history. " +
+			"R8 an absent source stays absent: the functions of the extraction and verification libraries (extract, extract/eventlog, extract/extractsev, extract/extracttdx, verify) that are handed options carrying a network getter or a UEFI-variable reader (a parameter whose struct has a field of type trust.HTTPSGetter / verify.HTTPSGetter / exel.VariableReader) manufacture no such source in their call closure (no conversion of a concrete type to one of these interfaces, no call of an external function returning one): a nil Getter stays nil and is refused, it is not replaced by a default that goes to the network. " +
 			"R6 (= C18.R9, eventlog encoders) encoding an event does not modify it. " +
 			"R5b the events maker's result is published as file contents in the invocation that computed it and is never stored into a field or global (no unkeyed cache of events across firmwares). " +
 			"R5 emitted events: both SP800-155 events are built with one GUID value; the URI locator is GCETcbURL of a name derived from hex(golden digest). " +
@@ -89,6 +91,7 @@ func runC16(c *Ctx) {
 		}
 		c.S.Floor("R7", "byte arguments of binary attestation parsers in package extract", 4, nParse)
 	}()
+	c16AbsentSourceStaysAbsent(c)
 	// R6 = C18.R9: the event encoders leave the event they encode untouched, so the manifest GUID written into the
 	// second event is the one written into the first.
 	c.borrow("R6/C18.", runC18, func(rule, construct string) bool { return rule == "R9" && strings.Contains(construct, "eventlog") })
@@ -896,4 +899,85 @@ func sameStructValue(a, b ssa.Value) bool {
 	la, ok1 := a.(*ssa.UnOp)
 	lb, ok2 := b.(*ssa.UnOp)
 	return ok1 && ok2 && la.X == lb.X
+}
+
+
+// c16AbsentSourceStaysAbsent is R8. See the Explanation.
+func c16AbsentSourceStaysAbsent(c *Ctx) {
+	isSourceIface := func(t types.Type) bool {
+		if _, ok := t.Underlying().(*types.Interface); !ok {
+			return false
+		}
+		return namedIs(t, "github.com/google/go-sev-guest/verify/trust", "HTTPSGetter") || namedIs(t, repoPath("verify"), "HTTPSGetter") || namedIs(t, repoPath("extract/eventlog"), "VariableReader")
+	}
+	carries := func(t types.Type) bool {
+		if p, ok := t.Underlying().(*types.Pointer); ok {
+			t = p.Elem()
+		}
+		st, ok := t.Underlying().(*types.Struct)
+		if !ok {
+			return false
+		}
+		for i := 0; i < st.NumFields(); i++ {
+			if isSourceIface(st.Field(i).Type()) {
+				return true
+			}
+		}
+		return false
+	}
+	// the extraction and verification libraries. gcetcbendorsement.TdxValidate is outside: it extracts with
+	// extract.DefaultOptions() by design (event log at the default place, default getter), whatever Getter it was handed.
+	lib := map[string]bool{"extract": true, "extract/eventlog": true, "verify": true, "extract/extractsev": true, "extract/extracttdx": true}
+	// where a source is manufactured
+	manufactures := func(f *ssa.Function) (string, token.Pos) {
+		for _, b := range f.Blocks {
+			for _, in := range b.Instrs {
+				switch x := in.(type) {
+				case *ssa.MakeInterface:
+					if isSourceIface(x.Type()) {
+						return "a " + typeShort(x.X.Type()) + " is made into a " + typeShort(x.Type()), x.Pos()
+					}
+				case *ssa.Call:
+					g := x.Call.StaticCallee()
+					if g != nil && !load.FuncInRepo(g) && g.Signature.Results().Len() >= 1 && isSourceIface(g.Signature.Results().At(0).Type()) {
+						return "call of " + g.String(), x.Pos()
+					}
+				}
+			}
+		}
+		return "", token.NoPos
+	}
+	keep := func(f *ssa.Function) bool {
+		return load.FuncInRepo(f) && lib[load.RelPkg(f)] && !c.isTestFunc(f)
+	}
+	n := 0
+	for _, f := range c.P.RepoFunctions() {
+		if !lib[load.RelPkg(f)] || c.isTestFunc(f) || f.Blocks == nil {
+			continue
+		}
+		handed := false
+		for _, p := range f.Params {
+			if carries(p.Type()) {
+				handed = true
+			}
+		}
+		if !handed {
+			continue
+		}
+		n++
+		bad := ""
+		var at token.Pos
+		var who *ssa.Function
+		for g := range c.reachable([]*ssa.Function{f}, keep) {
+			if why, pos := manufactures(g); why != "" && (who == nil || load.FuncName(g) < load.FuncName(who)) {
+				bad, at, who = why, pos, g
+			}
+		}
+		if bad != "" {
+			c.S.Bad("R8", load.FuncName(f)+":no source of its own", c.pos(at), "handed the caller's options, but its call closure manufactures a network getter / variable reader ("+bad+" in "+load.FuncName(who)+"): a source the caller left absent is replaced by a default one, so extraction can go to the network (or the host's efivars) although nobody configured that")
+		} else {
+			c.S.OK("R8", load.FuncName(f)+":no source of its own", c.pos(f.Pos()), "no getter / variable reader is manufactured in its call closure", true)
+		}
+	}
+	c.S.Floor("R8", "library functions handed options that carry a getter or variable reader", 6, n)
 }
